@@ -68,6 +68,9 @@ var (
 
 const vHost = "km.example.com"
 
+// every signature algorithm a keymaster signer can produce
+var vAllAlgs = []jose.SignatureAlgorithm{jose.RS256, jose.ES256, jose.ES384, jose.ES512, jose.EdDSA}
+
 func vMust(err error) {
 	if err != nil {
 		panic(fmt.Sprintf("verif harness: %v\n%s", err, debug.Stack()))
@@ -695,7 +698,7 @@ func (w *vWorld) parseIssued(body []byte) vCertInfo {
 
 // decodeCookie verifies an auth cookie under the world's keys and returns subject/level.
 func (w *vWorld) decodeCookie(val string) (user string, level int, ok bool) {
-	tok, err := jwt.ParseSigned(val, []jose.SignatureAlgorithm{jose.RS256, jose.ES256, jose.EdDSA, jose.ES384})
+	tok, err := jwt.ParseSigned(val, vAllAlgs)
 	if err != nil {
 		return "", 0, false
 	}
